@@ -35,7 +35,11 @@ class DTree:
 
     def decide(self, defp, args, atom):
         """value of defp(args) by folding its decision tree; `atom(term, ev)` supplies opaque atoms"""
-        for conds, ret, p in self.paths(defp):
+        return self.decide_paths(self.paths(defp), args, atom, what=defp)
+
+    def decide_paths(self, paths, args, atom, what='the given paths', want_ret=True):
+        """the same over an explicit list of (conds, ret, path): the one path whose conditions all hold at this point"""
+        for conds, ret, p in paths:
             ok = True
             for term, value, alts in conds:
                 v = self.ev(term, args, atom)
@@ -49,8 +53,8 @@ class DTree:
                     ok = False
                     break
             if ok:
-                return self.ev(ret, args, atom), p
-        raise Stuck('no path of %s matches' % defp)
+                return (self.ev(ret, args, atom) if want_ret and ret is not None else None), p
+        raise Stuck('no path of %s matches' % what)
 
     def ev(self, t, args, atom):
         """concrete value of a term; args: {i: value}"""
